@@ -71,6 +71,66 @@ def check(job):
     return out
 
 
+def crossfile(st):
+    """A multi-unit program split into one file per program unit; a module that other units USE is renamed
+    (edit + save), the dependants are saved unchanged: their diagnostics must now report the unknown module,
+    and must be silent again once the module has its name back."""
+    import os
+    prog = st["prog"]
+    lines = fscopes.render(prog)
+    units = []   # (first, last) statement indices of depth-0 units
+    start = None
+    for i, s_ in enumerate(prog):
+        if s_["op"] == "open" and s_["depth"] == 0:
+            start = i
+        if s_["op"] == "end" and s_["depth"] == 1 and start is not None:
+            units.append((start, i))
+            start = None
+    if len(units) < 2:
+        return "skip"
+    files = {"u%d.f90" % k: "\n".join(lines[a:b + 1]) + "\n" for k, (a, b) in enumerate(units)}
+    uses = {}   # module name tuple -> [(file, line in file)]
+    for k, (a, b) in enumerate(units):
+        for i in range(a, b + 1):
+            if prog[i]["op"] == "use" and prog[i]["name"] and prog[i]["name"][0] == "module":
+                uses.setdefault(tuple(prog[i]["name"]), []).append(("u%d.f90" % k, i - a))
+    if not uses:
+        return "skip"
+    mod = sorted(uses)[0]
+    mname = fscopes.nm(list(mod))
+    mfile = next("u%d.f90" % k for k, (a, b) in enumerate(units) if prog[a]["kind"] == "module" and tuple(prog[a]["name"]) == mod)
+    d = adapter.mkws(files)
+    bad = []
+    try:
+        s, c = adapter.mkserver(d, "--max_line_length 120")
+
+        def diags_after(method, fn):
+            ev = adapter.notify(s, c, method, {"textDocument": {"uri": adapter.uri(d, fn)}})
+            for e in ev:
+                if e["t"] == "note" and e["method"] == "textDocument/publishDiagnostics":
+                    return [(classify(x["message"]), x.get("severity"), x["range"]["start"]["line"]) for x in e["params"]["diagnostics"]]
+            return None
+        for fn in files:
+            diags_after("textDocument/didOpen", fn)
+        deps = sorted({f for f, _l in uses[mod] if f != mfile})
+        for phase, text in (("renamed", files[mfile].replace(mname, mname + "_renamed")), ("restored", files[mfile])):
+            with open(os.path.join(d, mfile), "w") as fh:
+                fh.write(text)
+            adapter.notify(s, c, "textDocument/didChange", {"textDocument": {"uri": adapter.uri(d, mfile)}, "contentChanges": [{"text": text}]})
+            diags_after("textDocument/didSave", mfile)
+            for fn in deps:
+                got = diags_after("textDocument/didSave", fn)
+                want = sorted(l for f, l in uses[mod] if f == fn)
+                have = sorted(g[2] for g in (got or []) if g[0] == "UseUnknownModule")
+                if phase == "renamed" and have != want:
+                    bad.append(({"crossfile:dependantNotRediagnosed", "phase:renamed"}, {"files": files, "module": mname, "dependant": fn, "expected_lines": want, "observed": got}))
+                if phase == "restored" and have:
+                    bad.append(({"crossfile:staleDiagnostic", "phase:restored"}, {"files": files, "module": mname, "dependant": fn, "observed": got}))
+    finally:
+        adapter.rmws(d)
+    return bad
+
+
 def complete_of(beh):
     for _a, st in reversed(beh):
         if st["stack"] == [] and st["prog"]:
@@ -151,6 +211,24 @@ def main(tier, seed):
         for tags, detail in val:
             detail.update(kind="program", state=progs[i])
             ck.violation(tags, detail)
+    # cross-file histories on valid multi-unit programs
+    multi = [p for p in progs if not p["expDiag"] and any(x["op"] == "use" and x["name"] and x["name"][0] == "module" for x in p["prog"])]
+    rnd.shuffle(multi)
+    multi = multi[: (150 if tier == "quick" else 1500)]
+    nx = 0
+    for i, status, val in par.pmap(crossfile, multi, item_timeout=180):
+        if status != "done":
+            ck.violation({"crossfile:" + status}, {"kind": "crossfile", "state": multi[i], "detail": val})
+            continue
+        if val == "skip":
+            continue
+        nx += 1
+        ck.count(key=("crossfile", json.dumps(multi[i]["prog"], sort_keys=True)))
+        ck.traces += 1
+        for tags, detail in val:
+            detail.update(kind="crossfile", state=multi[i])
+            ck.violation(tags, detail)
+    ck.note("crossfile_histories", nx)
     for p in [q for q in progs if q["expDiag"]][:2] + progs[:1]:
         ck.sample({"source": fscopes.render(p["prog"]), "expected_diagnostics": list(p["expDiag"])})
     return ck.finish()
